@@ -729,6 +729,8 @@ def write_container(node, schema_json, blocks, codec="null", sync=b"\x00" * 16, 
     if codec_key or codec != "null":
         m["avro.codec"] = codec.encode()
     for k, v in (meta or {}).items():
+        if k in ("avro.schema", "avro.codec"):
+            continue   # reserved: this writer describes the file itself
         m[k] = v if isinstance(v, bytes) else v.encode("utf-8")
     if ch is not None:
         keys = ch.shuffle(list(m))
